@@ -294,6 +294,28 @@ fn run(case: &Case09, with_upgrades: bool, sliced: bool, out: &mut Outcome) -> O
                 }
             }
             out.class("upgrade_with_argument");
+            // a further upgrade without an argument, now from the configuration the argument
+            // left behind (syncing possibly paused, gates on, other fees): nothing may change
+            let cfg_before = format!("{:?}", can::get_config());
+            let before2 = if neutral { Some(snapshot::take(&hw.w)) } else { None };
+            out.checks += 1;
+            if let Err(p) = hw.upgrade(None) {
+                out.fail(format!("plain upgrade after an upgrade with argument {:?} trapped: {p}", a));
+                return None;
+            }
+            let cfg_after = format!("{:?}", can::get_config());
+            if cfg_before != cfg_after {
+                out.fail(format!("a plain upgrade changed the configuration left by the argument {:?}: {cfg_before} -> {cfg_after}", a));
+            }
+            if let Some(b2) = before2 {
+                let after2 = snapshot::take(&hw.w);
+                if let Some(d) = snapshot::diff(&b2, &after2, false, false, true) {
+                    out.fail(format!("plain upgrade after an upgrade with argument {:?}: {d}", a));
+                }
+            }
+            if a.syncing == Some(false) {
+                out.class("plain_upgrade_while_syncing_is_paused");
+            }
         }
     }
     Some(r)
@@ -348,7 +370,7 @@ impl Property for C09 {
         }
     }
     fn rule(&self) -> String {
-        "Heartbeat-driver scenarios (regtest; split and complete replies; per-heartbeat ingestion budgets) with pre_upgrade+post_upgrade inserted at generated message boundaries: after a fetch was issued and answered, with a partial response stored (k of n pages), with a complete response stored but unprocessed, while an ingestion is paused, and idle; plus an upgrade with a generated configuration argument at the end. Oracles: (a) the observable snapshot (config, info, all get_utxos/get_balance/header answers, stored percentiles, counters) is identical before and after the upgrade, the tree is identical, the fetch state is reset; with an argument exactly the named configuration fields change; (b) twin run without the upgrades under a block source whose reply shape is a function of the request only: the sequences of distinct observable snapshots are equal (stuttering allowed) and both reach the same final snapshot; (c) the first request after an upgrade is an initial one and syncing completes within a bound. Non-trivial: an upgrade while a partial/complete response is stored or an ingestion is paused, or with >= 2 leaves in the tree; distinct = scenario hashes.".into()
+        "Heartbeat-driver scenarios (regtest; split and complete replies; per-heartbeat ingestion budgets) with pre_upgrade+post_upgrade inserted at generated message boundaries: after a fetch was issued and answered, with a partial response stored (k of n pages), with a complete response stored but unprocessed, while an ingestion is paused, and idle; plus an upgrade with a generated configuration argument at the end, followed by a plain upgrade from the configuration it left behind (syncing paused, gates on, other fees). Oracles: (a) the observable snapshot (config, info, all get_utxos/get_balance/header answers, stored percentiles, counters) is identical before and after the upgrade, the tree is identical, the fetch state is reset; with an argument exactly the named configuration fields change; (b) twin run without the upgrades under a block source whose reply shape is a function of the request only: the sequences of distinct observable snapshots are equal (stuttering allowed) and both reach the same final snapshot; (c) the first request after an upgrade is an initial one and syncing completes within a bound. Non-trivial: an upgrade while a partial/complete response is stored or an ingestion is paused, or with >= 2 leaves in the tree; distinct = scenario hashes.".into()
     }
     fn assumptions(&self) -> Vec<String> {
         vec![
@@ -361,7 +383,7 @@ impl Property for C09 {
         serde_json::json!({"final_arg": format!("{:?}", case.final_arg), "scenario": scenario_brief(&case.scenario)})
     }
     fn required_classes(&self, _tier: Tier) -> Vec<&'static str> {
-        vec!["upgrade_with_stored_response", "upgrade_while_ingestion_paused", "upgrade_on_forked_tree", "upgrade_with_argument", "twin_sequences_compared", "upgrade_with_stored_fee_percentiles", "fee_percentiles_observed_after_upgrade"]
+        vec!["upgrade_with_stored_response", "upgrade_while_ingestion_paused", "upgrade_on_forked_tree", "upgrade_with_argument", "plain_upgrade_while_syncing_is_paused", "twin_sequences_compared", "upgrade_with_stored_fee_percentiles", "fee_percentiles_observed_after_upgrade"]
     }
     fn max_shrink_iters(&self) -> u32 {
         250
